@@ -96,7 +96,14 @@ def gen_block(rng, vals):
             arg = rng.randint(0, 3)
         ops.append([op, arg])
     end = rng.choice(["commit", "commit", "none", "raise"])
-    return {"kind": kind, "ops": ops, "end": end}
+    b = {"kind": kind, "ops": ops, "end": end}
+    if kind == "conn" and rng.random() < 0.25:
+        # a per-connection characteristic (isolation level execution option): it is reset when the connection is checked in, which
+        # on the asyncio driver is one more await between "the block is over" and "the connection is back in the pool"
+        b["iso"] = "AUTOCOMMIT"
+    if kind == "conn" and rng.random() < 0.3:
+        b["explicit"] = True       # conn = await engine.connect(); try: ... finally: await conn.close()   (no shielded __aexit__)
+    return b
 
 
 def gen_case(rng, tier):
@@ -108,7 +115,7 @@ def gen_case(rng, tier):
     vals = [0]
     tasks = [[gen_block(rng, vals) for _ in range(rng.randint(1, 2))] for _ in range(nt)]
     return {"kind": "cancel", "tasks": tasks, "faults": [], "lat_seed": rng.getrandbits(32), "pool_size": rng.choice([1, 1, 2]),
-            "victim": rng.randrange(nt)}
+            "victim": rng.randrange(nt), "overflow": rng.choice([0, 0, 1, 2])}
 
 
 def derive_cases(case, res):
@@ -133,6 +140,33 @@ class Boom(Exception):
     pass
 
 
+class _SyncExplicit:
+    """try / finally: conn.close() spelled as a context manager"""
+    def __init__(self, conn):
+        self.conn = conn
+
+    def __enter__(self):
+        return self.conn
+
+    def __exit__(self, *a):
+        self.conn.close()
+        return False
+
+
+class _AsyncExplicit:
+    """conn = await engine.connect(); try: ... finally: await conn.close() - the close is an ordinary, cancellable await"""
+    def __init__(self, start):
+        self.start = start
+
+    async def __aenter__(self):
+        self.conn = await self.start
+        return self.conn
+
+    async def __aexit__(self, *a):
+        await self.conn.close()
+        return False
+
+
 def run_sync(engine, blocks, out, acked):
     text, exc, Session, Item, select = _m["text"], _m["exc"], _m["Session"], _m["Item"], _m["select"]
     for b in blocks:
@@ -141,7 +175,11 @@ def run_sync(engine, blocks, out, acked):
         try:
             if b["kind"] in ("conn", "begin"):
                 cm = engine.connect() if b["kind"] == "conn" else engine.begin()
+                if b.get("explicit"):
+                    cm = _SyncExplicit(cm)
                 with cm as c:
+                    if b.get("iso"):
+                        c.execution_options(isolation_level=b["iso"])
                     for op, arg in b["ops"]:
                         res.append(sync_conn_op(c, op, arg, pending, acked, text))
                     if b["end"] == "raise":
@@ -239,7 +277,11 @@ async def run_async(engine, blocks, out, acked, inflight):
         try:
             if b["kind"] in ("conn", "begin"):
                 cm = engine.connect() if b["kind"] == "conn" else engine.begin()
+                if b.get("explicit"):
+                    cm = _AsyncExplicit(cm)
                 async with cm as c:
+                    if b.get("iso"):
+                        await c.execution_options(isolation_level=b["iso"])
                     for op, arg in b["ops"]:
                         res.append(await async_conn_op(c, op, arg, pending, acked, inflight, text))
                     if b["end"] == "raise":
@@ -375,7 +417,7 @@ def run_case(case):
         return c
 
     aeng = create_async_engine("sqlite+aiosqlite:///" + apath, async_creator=creator, poolclass=_m["AQP"],
-                               pool_size=case["pool_size"], max_overflow=0, pool_timeout=30)
+                               pool_size=case["pool_size"], max_overflow=case.get("overflow", 0), pool_timeout=30)
 
     @event.listens_for(aeng.sync_engine, "begin")
     def do_begin(conn):
